@@ -14,7 +14,8 @@ PROPS["C20"] = dict(
          "different kinds of management operations overlapped in time (recorded call/return); distinct by (overlapping-kind set, interleaving signature = hash of the order in which yield points were passed)",
     assumptions=["race detector sees only executed code", "net.Pipe transports"],
     must_count=["mgmt_ops", "api_calls_completed", "clean_shutdowns", "connections_seen_closed", "yield_points_reached", "histories_with_overlapping_ops", "histories_stopped_midway",
-                "peers_with_graceful_restart", "peers_in_restarting_state_before_timers_ran"],
+                "peers_with_graceful_restart", "peers_in_restarting_state_before_timers_ran",
+                "peers_with_hold_timer", "hold_timer_expiries_provoked", "hold_timer_expiries_crossing_peer_notification"],
     min_nontrivial=10,
     race_property="C20",
     units=[dict(name="race", harness="t_server", files=["sim_", "c01_", "c20_"], run="TestVerifC20", race=True, gomaxprocs=[16, 4, 2, 1],
